@@ -446,6 +446,7 @@ func RunE2E(t *testing.T, in *RunInput) {
 	synctest.Test(t, func(t *testing.T) {
 		time.Sleep(123456789 * time.Nanosecond)
 		goruntime.SimBubbleGlobals(true)
+		goruntime.SimSetBias(1) // maps created from here on get a fixed hash seed: their iteration order is owned by the simulator
 		var tape *Tape
 		if in.Replay {
 			tape = NewReplayTape(in.Tape)
